@@ -103,6 +103,23 @@ class MiniEval:
             return r.value
         return None
 
+    def as_callable(self, v: Any) -> Callable:
+        """a Python callable for an interpreted function value (key= of sorted/min/max)"""
+        if isinstance(v, tuple) and v[:1] == ('<func>',):
+            _, node, cenv = v
+
+            def call(*a, **k):
+                saved = self.globals
+                try:
+                    self.globals = {**saved, **dict(cenv)}
+                    return self.call_function(node, list(a), k)
+                finally:
+                    self.globals = saved
+            return call
+        if callable(v):
+            return v
+        raise Unsupported(f'not a callable value: {type(v).__name__}')
+
     def block(self, stmts: list[ast.stmt], env: dict) -> None:
         for s in stmts:
             self.stmt(s, env)
@@ -500,6 +517,8 @@ class MiniEval:
             if f.id in ('len', 'bool', 'str', 'tuple', 'list', 'set', 'frozenset', 'dict', 'sorted', 'any', 'all',
                         'callable', 'issubclass', 'min', 'max', 'repr', 'int', 'float', 'enumerate', 'zip', 'range', 'reversed'):
                 import builtins
+                if 'key' in kwargs and f.id in ('sorted', 'min', 'max'):
+                    kwargs = {**kwargs, 'key': self.as_callable(kwargs['key'])}
                 return getattr(builtins, f.id)(*args, **kwargs)
             raise Unsupported(f'call of {f.id!r}')
         if isinstance(f, ast.Attribute):
